@@ -33,7 +33,8 @@ def conc_suite(profile, n_quick, n_thorough, sched_quick, sched_thorough, focus,
         # directed family: the smallest programs around each synchronisation window, many schedules each
         directed = {
             "wait": [[["wait", "proc"], ["dqnb", "enq", "dqne"]], [["wait", "proc"], ["enq"]], [["wait", "proc"], ["wait", "proc"], ["enq", "enq"]],
-                     [["waitfor", "proc"], ["dqnb", "dqnb", "enq", "dqne", "dqne"]], [["wait", "proc"], ["dqnb", "enq", "dqne"], ["one"]]],
+                     [["waitfor", "proc"], ["dqnb", "dqnb", "enq", "dqne", "dqne"]], [["wait", "proc"], ["dqnb", "enq", "dqne"], ["one"]],
+                     [["wait", "proc"], ["enq"], ["ifE"]], [["wait", "proc"], ["dqnb", "dqne"], ["ifE"], ["enq"]]],
             "conserve": [[["enq", "enq"], ["proc"], ["one"]], [["enq", "enq", "enq"], ["ifE"], ["take"]], [["enq", "enq"], ["clear"], ["proc"]],
                          [["enq", "enq"], ["ifO"], ["ifE"]]],
             "empty": [[["enq"], ["proc"], ["empty"]], [["enq", "enq"], ["one", "one"], ["empty", "empty"]], [["enq"], ["take"], ["empty"]],
@@ -50,6 +51,7 @@ def conc_suite(profile, n_quick, n_thorough, sched_quick, sched_thorough, focus,
                 runs.append((name, progs, rng.randrange(1 << 30), rng.choice([0, 10, 30, 80])))
         B = 400
         nfail = 0
+        norc = 0
         for off in range(0, len(runs), B):
             chunk = runs[off:off + B]
             text = "".join(suite_conc.run_text(*r) for r in chunk)
@@ -78,7 +80,8 @@ def conc_suite(profile, n_quick, n_thorough, sched_quick, sched_thorough, focus,
                 ctx.dist["terminal_with_parked"] += 1 if (di["terminal"] and di["parked"]) else 0
                 if orc:
                     nfail += 1
-                    if nfail <= 3:
+                    norc += 1
+                    if norc <= 3:
                         kind = "violation"
                         ctx.fail(kind, "%s: %s" % orc, script + "# schedule (global order of the performed micro-steps):\n" + "\n".join("# " + l for l in di["steps"]),
                                  "conc_q/" + profile, "\n".join(sec[-12:]))
